@@ -132,3 +132,54 @@ def index_own_bound(ctx, r):
                          f"{f['name']}: `{base}[{q.show(y['i'])}]` is range-tested with `{q.show(cmpn)}`: the bound is not the length of `{base}`. The two agree for well-formed input only (e.g. a set of parameter *names* is shorter than the parameter list when a name is repeated), and the subscript panics on the rest",
                          sample=f"{f['name']}: {base}[{iv}] under {q.show(cmpn)}")
     r.count("range-tested subscripts in the front end", n, 2, "abra_core/src/statics/resolve.rs")
+
+
+ERR = "abra_core/src/statics/error.rs"
+
+
+@rule("DIAG-TOTAL", ["C04", "C34"], "rendering a diagnostic never panics: a diverging arm in the renderer is only reachable for variants that an earlier guard has already handled and returned for")
+def diag_total(ctx, r):
+    items = ctx.file_items(ERR)
+    if items is None:
+        r.missing(ERR)
+        return
+    fns = {f["name"]: f for f, _ in q.iter_items(items) if f["k"] == "Fn" and f.get("body") is not None}
+    n = 0
+    for name, f in fns.items():
+        for m in q.walk(f["body"]):
+            if m["k"] != "Match":
+                continue
+            div = []
+            for a in m["arms"]:
+                if q.only_diverges(a["body"]):
+                    div += [q.last_seg(h) for h in q.pat_heads(a["pat"]) if h != "_"]
+                    if "_" in q.pat_heads(a["pat"]):
+                        div.append("_")
+            if not div:
+                continue
+            n += 1
+            scrut = q.show(m["e"]).lstrip("&*")
+            # guards before the match: `if g(.., scrut, ..) { return .. }` at the top level of the function
+            handled = set()
+            for s_ in f["body"]["stmts"]:
+                if any(y is m for y in q.walk(s_)):
+                    break
+                e = s_.get("e") if s_["k"] == "ExprStmt" else None
+                if e is not None and e["k"] == "If" and any(y["k"] == "Return" for y in q.walk(e["t"])):
+                    for c in q.walk(e["c"]):
+                        if c["k"] == "Call" and c["f"]["k"] == "Path" and c["f"]["p"] in fns and any(q.show(a).lstrip("&*") == scrut for a in c["args"]):
+                            g = fns[c["f"]["p"]]
+                            tail = g["body"]["stmts"][-1] if g["body"]["stmts"] else None
+                            tail_true = tail is not None and tail["k"] == "ExprStmt" and q.show(tail["e"]) == "true"
+                            for gm in q.walk(g["body"]):
+                                if gm["k"] == "Match":
+                                    for ga in gm["arms"]:
+                                        falls = any(y["k"] == "Return" and y.get("e") is not None and q.show(y["e"]) == "false" for y in q.walk(ga["body"]))
+                                        if tail_true and not falls:
+                                            handled |= {q.last_seg(h) for h in q.pat_heads(ga["pat"])}
+                                    break
+            left = sorted(set(div) - handled)
+            r.ob(not left, f"error.rs:{name}:{'+'.join(left)[:60]}:renderer-panics", ERR, m["l"],
+                 f"{name}: the arm(s) for {left} of `match {scrut}` diverge, and nothing before the match returns for them: a diagnostic that mentions such a declaration (a name clash with an import alias, a duplicated `outputtype`) makes the renderer - and with it `errors()` of the editor analysis and the CLI - panic instead of printing",
+                 sample=f"{name}: diverging arms {sorted(set(div))} are unreachable behind an earlier returning guard")
+    r.count("renderer matches with diverging arms", n, 1, ERR)
